@@ -11,7 +11,7 @@ from common import R, Ro, fl
 
 from common import wiring_pre_build as pre_build  # noqa: E402,F401
 
-LEAN_MODULES = ["PyomaVerif.Props.C16", "PyomaVerif.Mutants.C16", "PyomaVerif.Props.WiringMpe"]
+LEAN_MODULES = ["PyomaVerif.Props.C16", "PyomaVerif.Props.C16Extract", "PyomaVerif.Mutants.C16", "PyomaVerif.Mutants.C16Extract", "PyomaVerif.Props.WiringMpe"]
 THEOREMS = [
     # call-site wiring of the class layer, regenerated from /repo on every run (translate_wiring.py)
     "PV.WiringMpe.C16_handover_wiring",
@@ -27,13 +27,18 @@ THEOREMS = [
     "PV.C16.C16_no_shift_noop",
     "PV.C16.C16_click_order",
     "PV.C16.C16_click_order_eq",
+    # hand-over to extraction, over C11's models ssiMpe / plscfMpe (Props/C16Extract.lean)
+    "PV.C16.C16_selected_were_picked",
+    "PV.C16.C16_pick_row",
     "PV.C16.C16_extract",
+    "PV.C16.C16_extract_fields",
     "PV.Pick.Mut.knobs_default",
     "PV.C16.Mut.prefix_sort_breaks_pairing",
     "PV.C16.Mut.prefix_sort_deselect_wrong_pair",
     "PV.C16.Mut.pop_one_list_breaks_refine",
     "PV.C16.Mut.last_nearest_breaks_refine",
     "PV.C16.Mut.no_shift_gate_breaks_refine",
+    "PV.C16.Mut.prefix_sort_extracts_nothing",
 ]
 RULE = (
     "correspondence: a SelFromPlot instance built with object.__new__ (attributes as __init__ sets them, Agg figure) "
@@ -42,9 +47,11 @@ RULE = (
     "histories up to length 3 (quick) / 4 (thorough) over a 20-event alphabet (shift press/release, 3 buttons x 6 "
     "click points) on a 3x4 pole table with one NaN cell, started with and without the modifier held, for the SSI, "
     "pLSCF and FDD dialogs (redraw stubbed), plus random longer histories over random tables incl. malformed events "
-    "(click outside the axes, other buttons/keys, all-NaN columns) with the real redraw; hand-over SSI_mpe/pLSCF_mpe "
-    "vs model. oracle: list-of-pairs transition relation written from the property text on the same enumeration and "
-    "on random histories of <= 6 mouse actions; permuted click orders; mpe_from_plot end to end with only Tk patched "
+    "(click outside the axes, other buttons/keys, all-NaN columns) with the real redraw; hand-over: the real SSI_mpe/"
+    "pLSCF_mpe called as mpe_from_plot calls them with the dialog's (sel_freq, pole_ind) vs C11's models ssiMpe/plscfMpe "
+    "(Fn, Xi, Phi, covariances, order_out, exception class; tables with one distinct value per cell). oracle: list-of-pairs transition relation written from the property text on the same enumeration and "
+    "on random histories of <= 6 mouse actions, each followed by the real SSI_mpe / pLSCF_mpe on the handed-over pairs (Fn, order_out "
+    "and every mode's damping, shape, covariances from one cell holding the picked frequency at the picked order); permuted click orders; mpe_from_plot end to end with only Tk patched "
     "(events dispatched through the real matplotlib callbacks), two dialogs in a row per algorithm object, three "
     "algorithms per session. The displayed band (freqlim) is varied everywhere (default / lower edge above the first "
     "lines), frequencies are scaled by 2**-27..2**27, and the algorithm's result arrays are monitored to come back "
@@ -380,7 +387,7 @@ def correspondence(ctx):
         if k == 0:
             ctx.sample({"plot": plot, "data": data, "events": evs, "final": obs(s)})
         # (3) hand-over to extraction (list-of-orders branch of SSI_mpe / pLSCF_mpe)
-        if plot in STAB and s.sel_freq and len(s.sel_freq) == len(s.pole_ind):
+        if plot in STAB and len(s.sel_freq) == len(s.pole_ind):
             _corr_mpe(ctx, plot, data, s)
         if mode != "stub":
             import matplotlib.pyplot as plt
@@ -388,36 +395,52 @@ def correspondence(ctx):
             plt.close("all")
 
 
-def _real_mpe(plot, Fn, sel_freq, order, rtol):
+def mpe_tables(Fn, with_cov, d=2):
+    """damping / mode-shape / covariance tables for a pole table: every cell has its own dyadic values (a read
+    from another row or column shows), NaN where the pole is NaN (as the real tables are masked together)."""
     Fn = np.asarray(Fn, float)
     nr, nc = Fn.shape
-    Xi = np.full_like(Fn, 0.01)
-    Phi = np.ones((nr, nc, 2))
-    if plot == "SSI":
-        from pyoma2.functions import ssi
+    idx = np.arange(nr * nc, dtype=float).reshape(nr, nc)
+    nan = np.isnan(Fn)
+    Xi = np.where(nan, np.nan, (1 + idx) / 4096)
+    Phi = np.empty((nr, nc, d), dtype=complex)
+    for k in range(d):
+        Phi[:, :, k] = (1 + idx * d + k) / 64 + 1j * ((k + 1) / 8 - idx / 32)
+    Phi[nan, :] = complex(np.nan, np.nan)
+    cov = None
+    if with_cov:
+        pc = np.stack([(7 + idx * d + k) / 16384 for k in range(d)], axis=2)
+        pc[nan, :] = np.nan
+        cov = {"fn": np.where(nan, np.nan, (3 + idx) / 8192), "xi": np.where(nan, np.nan, (5 + 2 * idx) / 8192), "phi": pc}
+    return Xi, Phi, cov
 
-        out = ssi.SSI_mpe(sel_freq, Fn, Xi, Phi, order, Lab=None, rtol=rtol)
-        return out[0], out[3]
-    from pyoma2.functions import plscf
 
-    out = plscf.pLSCF_mpe(sel_freq, Fn, Xi, Phi.astype(complex), order, Lab=None, rtol=rtol)
-    return out[0], out[3]
+def mpe_case(plot, data, sel_freq, order, rtol, with_cov):
+    """the call `mpe_from_plot` makes: SSI_mpe / pLSCF_mpe(sel_freq, Fn_poles, Xi_poles, Phi_poles, order=pole_ind, Lab=None, rtol)"""
+    Fn = np.asarray(data, float)
+    Xi, Phi, cov = mpe_tables(Fn, with_cov and plot == "SSI")
+    return {"freq": [float(v) for v in sel_freq], "Fn": Fn, "Xi": Xi, "Phi": Phi, "Lab": None, "order": [int(v) for v in order],
+            "rtol": rtol, "deltaf": 0.05, "cov": cov, "kind": "list"}
+
+
+RTOLS = [1e-2, 5e-2, 1e-3, 0.0]
 
 
 def _corr_mpe(ctx, plot, data, s):
-    rtol = 1e-2
-    sel_freq, order = s.sel_freq, s.pole_ind  # SFP.result
-    try:
-        Fn, order_out = _real_mpe(plot, data, sel_freq, order, rtol)
-        impl = [float(v) for v in np.asarray(Fn).reshape(-1)]
-    except Exception as ex:  # noqa: BLE001
-        impl = type(ex).__name__
-    m = ctx.model(
-        "pick_mpe", sel_freq=[R(v) for v in sel_freq], ind=[int(v) for v in order], rtol=R(rtol), **plot_json(plot, data)
-    )
-    mm = None if m is None else [fl(v) for v in m]
-    ok = (mm == impl) if not isinstance(impl, str) else (mm is None)
-    ctx.corr(f"mpe_list[{plot}]", ok, {"plot": plot, "data": data, "sel_freq": sel_freq, "order": order}, mm, impl, ("mpe", len(sel_freq)))
+    """hand-over: the real SSI_mpe / pLSCF_mpe on the dialog's (sel_freq, pole_ind) against C11's models
+    `ssiMpe` / `plscfMpe` (ops ssi_mpe / plscf_mpe) — the functions `C16_extract` is stated about; all
+    outputs (Fn, Xi, Phi, covariances, order_out, exception class)."""
+    from c11 import call_plscf, call_ssi, model_inp, same_out
+
+    case = mpe_case(plot, data, s.sel_freq, s.pole_ind, ctx.rng.choice(RTOLS), ctx.rng.random() < 0.5)  # SFP.result
+    which = "ssi" if plot == "SSI" else "plscf"
+    impl = (call_ssi if which == "ssi" else call_plscf)(case)
+    inp = model_inp(case, which)
+    model = ctx.model("ssi_mpe" if which == "ssi" else "plscf_mpe", **inp)
+    ok = same_out(model, impl)
+    ctx.corr(f"mpe_list[{plot}]", ok, inp if not ok else None, model, impl,
+             ("mpe", len(case["freq"]), case["cov"] is not None, impl.get("exc")))
+    ctx.count(f"mpe_list_{plot}_{'raised' if 'exc' in impl else len(impl['fn'])}")
 
 
 # ----------------------------------------------------------------------------- oracle (from the statement)
@@ -570,6 +593,61 @@ def _report(ctx, seen, v, plot, data, evs, s, init=None, band=None):
         )
 
 
+def extract_check(plot, data, sel_freq, order, rtol, with_cov):
+    """'the modes extracted afterwards are those poles', from the statement: the real SSI_mpe / pLSCF_mpe called as
+    mpe_from_plot calls them must return one mode per handed-over pair, in that order: Fn == sel_freq,
+    order_out == pole_ind, and damping, shape and covariances of mode k all read from ONE cell (r, pole_ind[k]) with
+    Fn_poles[r, pole_ind[k]] == sel_freq[k] (if several rows hold that frequency any of them is accepted).
+    Returns (sig, what) or None."""
+    from c11 import call_plscf, call_ssi
+
+    case = mpe_case(plot, data, sel_freq, order, rtol, with_cov)
+    got = (call_ssi if plot == "SSI" else call_plscf)(case)
+    name = "SSI_mpe" if plot == "SSI" else "pLSCF_mpe"
+    if "exc" in got:
+        return ("extract-raises", f"{name} raised {got['exc']} on the handed-over pairs {list(zip(case['freq'], case['order']))}")
+    if got["order_out"] != {"arr": case["order"]}:
+        return ("extract-order_out-differs", f"{name}: order_out = {got['order_out']}, handed over {case['order']}")
+    if got["fn"] != case["freq"]:
+        return ("extract-fn-differs", f"{name}: Fn = {got['fn']}, handed over {case['freq']}")
+    Fn, Xi, Phi, cov = case["Fn"], case["Xi"], case["Phi"], case["cov"]
+    n = len(case["freq"])
+    if len(got["xi"]) != n or len(got["phi"]) != n or (cov is not None and not (len(got["fn_cov"]) == len(got["xi_cov"]) == len(got["phi_cov"]) == n)):
+        return ("extract-lists-unequal-length", f"{name}: {n} modes handed over, lengths returned "
+                f"{[len(got[k]) for k in ('fn', 'xi', 'phi', 'fn_cov', 'xi_cov', 'phi_cov')]}")
+    for k, (f, o) in enumerate(zip(case["freq"], case["order"])):
+        rows = [r for r in range(Fn.shape[0]) if Fn[r, o] == f]
+        fits = [
+            r for r in rows
+            if got["xi"][k] == Xi[r, o] and list(got["phi"][k]) == list(Phi[r, o, :])
+            and (cov is None or (got["fn_cov"][k] == cov["fn"][r, o] and got["xi_cov"][k] == cov["xi"][r, o]
+                                 and list(got["phi_cov"][k]) == list(cov["phi"][r, o, :])))
+        ]
+        if not fits:
+            return ("extract-foreign-or-mixed-pole",
+                    f"{name}: mode {k} (picked {f} at order {o}, rows {rows}) has xi={got['xi'][k]}, phi={got['phi'][k]}"
+                    + (f", covariances {got['fn_cov'][k]}, {got['xi_cov'][k]}, {got['phi_cov'][k]}" if cov is not None else "")
+                    + " - not the entries of one of those cells")
+    return None
+
+
+def _oracle_extract(ctx, seen, plot, data, s):
+    if plot not in STAB or len(s.sel_freq) != len(s.pole_ind):
+        return
+    rtol, with_cov = ctx.rng.choice(RTOLS), ctx.rng.random() < 0.5
+    sel_freq, order = [float(v) for v in s.sel_freq], [int(v) for v in s.pole_ind]
+    v = extract_check(plot, data, sel_freq, order, rtol, with_cov)
+    ctx.oracle_cases += 1
+    ctx.count(f"oracle_extract_{plot}_{min(len(sel_freq), 3)}")
+    ctx.nontrivial.add(("extract", plot, len(sel_freq), with_cov))
+    if v:
+        ctx.count("oracle_" + v[0])
+        if seen.get(v[0], 0) < 2:
+            seen[v[0]] = seen.get(v[0], 0) + 1
+            ctx.violation(v[0], f"{plot}: {v[1]}",
+                          {"kind": "extract", "plot": plot, "data": data, "sel_freq": sel_freq, "order": order, "rtol": rtol, "with_cov": with_cov})
+
+
 def oracle(ctx, scale):
     seen = {}
     depth = ctx.n(3, 4)
@@ -606,7 +684,8 @@ def oracle(ctx, scale):
         evs = rand_history(ctx.rng, plot, data, ctx.rng.randint(2, 9), malformed=False, scale=sc)
         algo = mk_algo_stab(data) if plot in STAB else mk_algo_fdd(data, k)
         s = mk_dialog(plot, algo, "stub", band)
-        _oracle_history(ctx, plot, data, evs, s, seen, band)
+        if _oracle_history(ctx, plot, data, evs, s, seen, band):
+            _oracle_extract(ctx, seen, plot, data, s)  # "... and the modes extracted afterwards are those poles"
         ctx.count("oracle_random_histories")
     # (c) "irrespective of the order in which the poles were clicked": permuted pick sequences
     for k in range(ctx.n(60, 800) * scale):
@@ -835,6 +914,14 @@ def replay(rec):
     v = rec["violation"]
     inp = v["input"]
     print("replaying", v["sig"], "-", v["what"])
+    if inp.get("kind") == "extract":
+        data = [[float("nan") if (x == "nan" or x is None) else x for x in row] for row in inp["data"]]
+        res = extract_check(inp["plot"], data, inp["sel_freq"], inp["order"], inp["rtol"], inp["with_cov"])
+        if res:
+            print("VIOLATION reproduced:", res[0], "-", res[1])
+            return 1
+        print("no violation")
+        return 0
     if inp.get("kind") != "history":
         print("end-to-end record: events delivered were", inp.get("delivered"))
         print("re-run `./check C16` with the same VERIF_SEED to reproduce")
